@@ -140,6 +140,13 @@ def retriedFrom (p : Proc) (h : Nat) : List Delta :=
   let stops := pathsOf p.stop .full ++ pathsOf p.stop .early
   andThen (andThen (andThen born runs) runs) stops
 
+/-- the production entry points (`KeygenEventHandler`, `FrostKeygenEventHandler`, `RefreshEventHandler`): construct the
+    process, call `Execute`, log its error - and touch the process no further. `extraStop` = the seeded variant that
+    stops the process once more after a failed `Execute`. -/
+def handlerFrom (extraStop : Bool) (p : Proc) (o : Outcome) (h : Nat) : List Delta :=
+  let ds := sessionFrom true p o h
+  if extraStop && o != .ctorerr then andThen ds (pathsOf p.stop .full ++ pathsOf p.stop .early) else ds
+
 def Delta.add (a b : Delta) : Delta :=
   ⟨b.held, a.locks + b.locks, a.unlocks + b.unlocks, a.fatal + b.fatal, a.blocked + b.blocked,
    a.accL + b.accL, a.accU + b.accU, b.runHeld, a.unknown || b.unknown⟩
@@ -150,6 +157,12 @@ def sequenceFrom (tbl : Kind → Proc) (refusalStops : Bool) : List (Kind × Out
   | (k, o) :: rest, h =>
     (sessionFrom refusalStops (tbl k) o h).flatMap fun d =>
       (sequenceFrom tbl refusalStops rest d.held).map fun e => d.add e
+
+/-- another session on the same store holds the lock when this one wants it (in its constructor or in `Run`) and
+    releases it later: whoever waited gets the lock then, so the holder's lock/unlock simply precedes the session -/
+def holder : Delta := activation [.L, .U] (Delta.start 0)
+
+def busyFrom (p : Proc) (o : Outcome) : List Delta := (sessionFrom true p o holder.held).map holder.add
 
 /-! ### the property -/
 
